@@ -36,6 +36,9 @@ pub enum Op {
     Rewire { v: u8, what: u8 },
     /// whale order sized (by bisection on a what-if copy) to be the largest one the vAMM's per-block band still accepts, or one unit beside it
     PushEdge { v: u8, up: bool, knob: u16 },
+    /// an account that is not the margin engine (owner, stranger, a trader, the insurance fund's owner ...) sends a swap or a
+    /// funding settlement straight to the vAMM
+    Intruder { v: u8, who: u8, kind: u8, knob: u16 },
 }
 
 #[derive(Clone, Debug, Serialize, Deserialize, PartialEq, Eq, Hash)]
@@ -69,6 +72,7 @@ pub struct Weights {
     pub alias: u32,
     pub rewire: u32,
     pub edge: u32,
+    pub intruder: u32,
 }
 
 impl Weights {
@@ -96,6 +100,7 @@ impl Weights {
             alias: 0,
             rewire: 0,
             edge: 0,
+            intruder: 0,
         }
     }
 }
@@ -300,6 +305,7 @@ pub fn op_strategy(w: &Weights) -> BoxedStrategy<Op> {
         (w.alias, 19),
         (w.rewire, 20),
         (w.edge, 21),
+        (w.intruder, 22),
     ]
     .into_iter()
     .filter(|(wt, _)| *wt > 0)
@@ -338,7 +344,8 @@ pub fn op_strategy(w: &Weights) -> BoxedStrategy<Op> {
                 18 => Op::RegisterAlien { add: b },
                 19 => Op::Alias { kind: s1 % 6, v, amt: k1 },
                 20 => Op::Rewire { v, what: s1 },
-                _ => Op::PushEdge { v, up: b, knob: k1 },
+                21 => Op::PushEdge { v, up: b, knob: k1 },
+                _ => Op::Intruder { v, who: s2, kind: s1, knob: k1 },
             }
         })
         .boxed()
